@@ -480,6 +480,7 @@ def _r68(F, flat):
         own = [c_ for c_ in src if c_[0] == "param"]
         labs = Origins(ri).at(t["args"][1], b)
         from_self = "working_dir" in {l[1] for l in labs if l[0] == "field"} and not ok
+        need(ok or from_self, "resolve_import: where the child checker's working directory comes from was not identified (%s)" % sorted(names)[:2])
         r.inst("base:child-checker#%d" % k_, ri.where(b), ok and not from_self,
                "the child checker's working dir = parent() of the imported file" if ok and not from_self else
                "the checker of an imported file inherits the importer's working directory: its nested relative imports resolve against "
